@@ -271,6 +271,11 @@ pub fn parse_subs() -> Vec<Sub> {
     ]
 }
 
+#[derive(Clone, Debug, Serialize, Deserialize)]
+pub struct RawCase {
+    pub bytes: Vec<u8>,
+}
+
 pub fn def() -> PropDef {
     PropDef {
         id: "C19",
@@ -279,6 +284,17 @@ pub fn def() -> PropDef {
         subs: {
             let mut s = parse_subs();
             s.push(crate::e2e::c19_faults_sub());
+            s.push(Sub {
+                name: "raw",
+                cases: |_| 0,
+                run: |_| WorkerReport::default(),
+                replay: |v| replay_case::<RawCase>(v, |c| {
+                    let mut o = Outcome::new();
+                    check_total_bytes(&c.bytes, &mut o);
+                    o
+                }),
+                min_class: &[],
+            });
             s
         },
     }
